@@ -495,6 +495,15 @@ void case_opl(uint64_t idx, vh::Rng& rng) {
     maybe_interleave(rng, D);
     c02::fit_refs(D);
     c02::fit_opl(D);
+    // ways whose node refs are partly located, partly not (located ones in front as well): state
+    // must not be carried from one node ref to the next
+    size_t mixed = 0;
+    for (auto& o : D) if (o.type == mdl::WAY && o.nodes.size() >= 2 && rng.coin()) {
+        bool any = false;
+        for (size_t i = 1; i < o.nodes.size(); ++i) if (rng.chance(1, 3)) { o.nodes[i].x = UNDEF; o.nodes[i].y = UNDEF; any = true; }
+        if (any) ++mixed;
+    }
+    vh::count("opl_ways_with_located_and_unlocated_node_refs", mixed);
     c02::OplEncoder enc{rng, false};
     const c02::OplResult r = enc.encode(D);
     vh::set_case_desc("%s", r.desc.c_str());
